@@ -1,5 +1,5 @@
 // C11 harness: N threads hammer ONE JitAllocator / JitRuntime (alloc, write, shrink, write-with-truncation, query, statistics,
-// release, add/release of code) and, independently, each thread generates code with its OWN CodeHolder/emitters
+// release, add/release of code) and, independently, each thread uses its OWN JitAllocator and generates code with its OWN CodeHolder/emitters
 // (x86-64 and AArch64; Assembler, Builder, Compiler; with a logger) and compares it with the single-threaded result.
 //
 // Line protocol:  run <threads> <ops per thread> <seed> <options hex> <granularity> [<yield level 0..3>]
@@ -588,6 +588,12 @@ static std::string step(const std::string& line) {
       tl = &cx;
       const bool H = g_hook_on;
       std::vector<Live> live;
+      // a thread-private allocator (never shared): must not interfere with anything either
+      JitAllocator::CreateParams pparams;
+      pparams.options = JitAllocatorOptions((uint32_t(opts) ^ 0x2u) & ~0x20u);
+      pparams.granularity = uint32_t(gran);
+      JitAllocator priv(&pparams);
+      std::vector<JitAllocator::Span> priv_live;
       uint64_t h_asm = 0, h_cc = 0;
       uint32_t code_runs = 0;
       std::string first_diff;
@@ -720,6 +726,24 @@ static std::string step(const std::string& line) {
           else errors[tid]++;
           cx.kind = kNone;
         }
+        else if (k < 96) {
+          // the private allocator: a burst of allocations of assorted sizes, contents checked, most released again
+          for (uint32_t q = 0; q < 6; q++) {
+            JitAllocator::Span sp;
+            size_t req = 1 + size_t(rng() % 3000);
+            if (priv.alloc(Out(sp), req) != Error::kOk || sp.size() < req) { errors[tid]++; continue; }
+            priv.write(sp, 0, std::string(sp.size(), char(0x40 + q)).data(), sp.size());
+            priv_live.push_back(sp);
+          }
+          while (priv_live.size() > 8) {
+            size_t j = rng() % priv_live.size();
+            JitAllocator::Span q;
+            const uint8_t* p = static_cast<const uint8_t*>(priv_live[j].rx());
+            if (priv.query(Out(q), priv_live[j].rx()) != Error::kOk || q.size() != priv_live[j].size() || p[0] != p[priv_live[j].size() - 1]) errors[tid] += 1000;
+            if (priv.release(priv_live[j].rx()) != Error::kOk) errors[tid]++;
+            priv_live[j] = priv_live.back(); priv_live.pop_back();
+          }
+        }
         else {
           uint32_t kind = uint32_t(rng() % kGenKinds), s = uint32_t(rng() % kGenSeeds);
           uint64_t d = gen_code_hash(kind, s) ^ expect[kind][s];   // 0 when identical
@@ -736,6 +760,8 @@ static std::string step(const std::string& line) {
         cx.po.push_back(sig_stats(st));
       }
 #endif
+      for (auto& sp : priv_live) if (priv.release(sp.rx()) != Error::kOk) errors[tid]++;
+      if (priv.statistics().allocation_count() != 0) errors[tid] += 1000;
       leftovers[tid] = live;
       code_lines[tid] = "code " + std::to_string(tid) + " runs=" + std::to_string(code_runs) + " asm_diff=" + vh::to_hex(h_asm) + " cc_diff=" + vh::to_hex(h_cc) + first_diff;
       tl = nullptr;
